@@ -41,6 +41,9 @@ def obligations(tier):
                       bounds=f"{kz} tempo events with symbolic ticks, one zero tempo at any position, every hint and tick: ValueError exactly when the zero tempo governs, the tick is negative or the hint is too late"))
     obs.append(Ob("C15.framing", "CH", "harness.h_chart", "framing", 300, funcs=("chartparse.chart.Chart._partition_lines_by_data_section",),
                   bounds="3 sections x <=2 symbolic body lines of any length (blank lines included): this section's parser receives exactly its own body lines"))
+    obs.append(_two_maps("C15"))
+    obs.append(Ob("C15.negative_tick_forms", "CH", "harness.h_sync2", "negative_tick_forms", 300, funcs=(SY + "BPMEvents.timestamp_at_tick", SY + "BPMEvents.timestamp_at_tick_no_optimize_return"),
+                  bounds="negative positions in 10 numeric forms (ints, floats just below zero, fractions, -inf, -2^70), every hint, both query entry points: rejected (ValueError / TypeError), never timed"))
     return obs
 
 
